@@ -101,7 +101,10 @@ func c02KeyPool(r *simrt.Rand) [][]byte {
 
 func c02Val(r *simrt.Rand, uniq int) []byte {
 	var n int
-	switch r.Intn(6) {
+	switch r.Intn(7) {
+	case 6:
+		// long values: node encodings beyond what the hasher's scratch buffer held before
+		n = []int{r.Range(300, 700), r.Range(701, 2500), r.Range(2501, 9000)}[r.Intn(3)]
 	case 0:
 		n = r.Range(1, 4)
 	case 1:
